@@ -157,7 +157,8 @@ Definition invert_action_of (cfg : invert_cfg) (n : expr) : invert_action :=
         if negb (iv_chains cfg) && negb (Nat.eqb (List.length rest) 1) then IA_none
         else match invert_targets cfg rest with Some _ => IA_general l rest | None => IA_none end in
       match rest with
-      | [(Is, c)] => if has_value_attr c
+      | [(Is, c)] => if is_juxt c then general
+                     else if has_value_attr c
                      then match c with EConst (CBool _) => IA_is_literal l | _ => general end
                      else IA_raises
       | _ => general
@@ -171,7 +172,7 @@ Definition invert_node_ok (cfg : invert_cfg) (rho : env) (n : expr) : bool :=
   | IA_general l rest =>
       match rest with
       | [(o, c)] => match assoc_op o (iv_table cfg) with
-                    | Some o' => negates o o' && (negb (is_ordering o) || totally_ordered_operands rho l c)
+                    | Some o' => negb (is_juxt c) && negates o o' && (negb (is_ordering o) || totally_ordered_operands rho l c)
                     | None => false
                     end
       | _ => false
@@ -183,7 +184,7 @@ Definition invert_node_classes (cfg : invert_cfg) (rho : env) (n : expr) : list 
   | IA_none | IA_raises => []
   | IA_is_literal l => if bool_or_raises rho l then [] else [kf_invert_is_literal]
   | IA_general l rest =>
-      (if existsb (fun oc => negb (is_some (assoc_op (fst oc) (iv_table cfg)))) rest then [kf_invert_default_branch] else []) ++
+      (if existsb (fun oc => is_juxt (snd oc) || negb (is_some (assoc_op (fst oc) (iv_table cfg)))) rest then [kf_invert_default_branch] else []) ++
       (if Nat.eqb (List.length rest) 1 then [] else [kf_invert_chain]) ++
       (match rest with
        | [(o, c)] => if is_ordering o && negb (totally_ordered_operands rho l c) then [kf_invert_partial_order] else []
@@ -242,7 +243,8 @@ Definition hasattr_node_ok (rho : env) (n : expr) : bool :=
   | ECall BHasattr (a :: rest) =>
       if last_is_call_lit (a :: rest) then
         match rest with
-        | [_] => match eval rho a with Val v => negb (inst_only_call v) | Raise _ => true end
+        | [_] => negb (is_gen a) &&       (* generator objects are outside the value domain of the model *)
+                 match eval rho a with Val v => negb (inst_only_call v) | Raise _ => true end
         | _ => false
         end
       else true
